@@ -86,6 +86,52 @@ pub struct Case {
     /// chain clock at the call = genesis mint time minus this many nanoseconds (0: the default clock, one second after genesis)
     #[serde(default)]
     pub before_genesis: u64,
+    /// governance allow-list proposals applied after `updates`: (labels to add, labels to remove); labels B = sg721-base
+    /// (on the list from the start), U = sg721-updatable, N = sg721-nt
+    #[serde(default)]
+    pub code_ops: Vec<(Vec<String>, Vec<String>)>,
+    /// label of the collection code the request names (None: sg721-base when `coll_code_allowed`, else sg721-nt)
+    #[serde(default)]
+    pub req_code: Option<String>,
+}
+
+fn r_code_label(c: &Case) -> String {
+    match &c.req_code {
+        Some(l) => l.clone(),
+        None => if c.req.coll_code_allowed { "B".into() } else { "N".into() },
+    }
+}
+
+fn code_of(w: &World, label: &str) -> u64 {
+    match label {
+        "B" => w.codes["sg721-base"],
+        "U" => w.codes["sg721-updatable"],
+        _ => w.codes["sg721-nt"],
+    }
+}
+
+/// what governance asked for, computed from the proposals alone (never read back from the factory):
+/// each UpdateParams replaces exactly the fields it supplies; a non-native minimum cannot be supplied
+fn intended(kind: Kind, p: &Params, updates: &[Params]) -> Params {
+    let mut e = p.clone();
+    for u in updates {
+        e.frozen = u.frozen;
+        e.fee = u.fee;
+        e.fee_ibc = u.fee_ibc;
+        e.offset = u.offset;
+        if kind != Kind::TokenMerge && !u.min_ibc {
+            e.min_price = u.min_price;
+            e.min_ibc = false;
+        }
+        if kind != Kind::Base {
+            e.max_tokens = u.max_tokens;
+            e.max_pal = u.max_pal;
+            if !(kind == Kind::Open && u.min_ibc) {
+                e.airdrop_price = u.airdrop_price;
+            }
+        }
+    }
+    e
 }
 
 struct World {
@@ -135,6 +181,7 @@ impl World {
         put(&mut app, "sg721-nt", chain::sg721_nt());
         put(&mut app, "whitelist", chain::whitelist());
         put(&mut app, "whitelist-flex", chain::whitelist_flex());
+        put(&mut app, "sg721-updatable", chain::sg721_updatable());
         for a in [CREATOR, PAYER] {
             chain::mint_coins(&mut app, a, 1_000_000_000_000, NATIVE);
             chain::mint_coins(&mut app, a, 1_000_000_000_000, IBC);
@@ -326,6 +373,24 @@ pub fn run_case(c: &Case) -> Outcome {
     for u in &c.updates {
         let _ = chain::sudo(&mut w.app, &factory, &World::update_json(kind, u));
     }
+    let want = intended(kind, &c.params, &c.updates);
+    // allow-list proposals: only the add / remove lists are supplied, every other field keeps its value
+    let mut want_codes: Vec<String> = vec!["B".into()];
+    for (add, rm) in &c.code_ops {
+        let mut j = World::update_json(kind, &want);
+        j["update_params"]["add_sg721_code_ids"] = json!(add.iter().map(|l| code_of(&w, l)).collect::<Vec<u64>>());
+        j["update_params"]["rm_sg721_code_ids"] = json!(rm.iter().map(|l| code_of(&w, l)).collect::<Vec<u64>>());
+        if want.min_ibc {
+            j["update_params"]["min_mint_price"] = Value::Null;
+        }
+        let _ = chain::sudo(&mut w.app, &factory, &j);
+        for a in add {
+            if !want_codes.contains(a) {
+                want_codes.push(a.clone());
+            }
+        }
+        want_codes.retain(|x| !rm.contains(x));
+    }
     let now = chain::now(&w.app);
     let wl_addr: Option<Addr> = match c.req.wl {
         None => None,
@@ -358,7 +423,8 @@ pub fn run_case(c: &Case) -> Outcome {
     let start = (now as i128 + r.start_in as i128) as u64;
     let end = r.end_in.map(|e| (now as i128 + e as i128) as u64);
     let trading = r.trading_in.map(|e| (now as i128 + e as i128) as u64);
-    let coll_code = if r.coll_code_allowed { w.codes["sg721-base"] } else { w.codes["sg721-nt"] };
+    let req_label: String = r_code_label(c);
+    let coll_code = code_of(&w, &req_label);
     let coll = json!({"code_id": coll_code, "name": "Collection", "symbol": "COL",
         "info": {"creator": CREATOR, "description": "d", "image": "https://example.com/image.png",
                  "external_link": "https://example.com/external.html", "explicit_content": false,
@@ -441,11 +507,36 @@ pub fn run_case(c: &Case) -> Outcome {
         }
         // the request was within bounds (documented rules, parameters in force)
         let e = if kind == Kind::TokenMerge { praw.clone() } else { praw["extension"].clone() };
-        if praw["frozen"].as_bool().unwrap() {
+        if praw["frozen"].as_bool().unwrap() || want.frozen {
             viol.push(("C08:created-while-frozen".into(), format!("{}: creation succeeded on a frozen factory", hist_key)));
         }
-        if !r.coll_code_allowed {
-            viol.push(("C08:code-id-not-allowed".into(), format!("{}: creation succeeded with a collection code id off the allow-list", hist_key)));
+        if !want_codes.contains(&req_label) {
+            viol.push(("C08:code-id-not-allowed".into(), format!("{}: creation succeeded with collection code {} although governance's allow-list is {:?} (proposals {:?})", hist_key, req_label, want_codes, c.code_ops)));
+        }
+        // the bounds in force are the ones governance last set (ledger kept by the harness, not read back)
+        {
+            let mut diffs = vec![];
+            let coin_of = |v: &Value| (v["amount"].as_str().unwrap_or("?").to_string(), v["denom"].as_str().unwrap_or("?").to_string());
+            if coin_of(&praw["creation_fee"]) != (want.fee.to_string(), dn(want.fee_ibc).to_string()) {
+                diffs.push(format!("creation_fee {} vs {} {}", praw["creation_fee"], want.fee, dn(want.fee_ibc)));
+            }
+            if kind != Kind::TokenMerge && coin_of(&praw["min_mint_price"]) != (want.min_price.to_string(), dn(want.min_ibc).to_string()) {
+                diffs.push(format!("min_mint_price {} vs {} {}", praw["min_mint_price"], want.min_price, dn(want.min_ibc)));
+            }
+            if praw["max_trading_offset_secs"].as_u64() != Some(want.offset) {
+                diffs.push(format!("max_trading_offset_secs {} vs {}", praw["max_trading_offset_secs"], want.offset));
+            }
+            if kind != Kind::Base {
+                if e["max_token_limit"].as_u64() != Some(want.max_tokens as u64) {
+                    diffs.push(format!("max_token_limit {} vs {}", e["max_token_limit"], want.max_tokens));
+                }
+                if e["max_per_address_limit"].as_u64() != Some(want.max_pal as u64) {
+                    diffs.push(format!("max_per_address_limit {} vs {}", e["max_per_address_limit"], want.max_pal));
+                }
+            }
+            if !diffs.is_empty() {
+                viol.push(("C08:bounds-in-force-differ-from-governance".into(), format!("{}: after proposals {:?} the factory reports {}", hist_key, c.updates, diffs.join("; "))));
+            }
         }
         let paid_ok = r.funds.len() == 1 && r.funds[0].0 == fee_denom && r.funds[0].1 >= fee && (kind != Kind::Open || r.funds[0].1 == fee);
         if !paid_ok {
@@ -695,14 +786,34 @@ fn probes(kind: Kind, code: usize, p: &Params, updates: &[Params]) -> Vec<Case> 
         v.push(Req { end_in: Some(5000 * S as i64), num_tokens: None, price: 0, ..base.clone() });
         v.push(Req { nft_ok: false, ..base.clone() });
     }
-    let mut out: Vec<Case> = v.into_iter().map(|req| Case { kind, code, params: p.clone(), updates: updates.to_vec(), req, before_genesis: 0 }).collect();
+    let mut out: Vec<Case> = v.into_iter().map(|req| Case { kind, code, params: p.clone(), updates: updates.to_vec(), req, before_genesis: 0, code_ops: vec![], req_code: None }).collect();
+    if updates.is_empty() {
+        // governance allow-list proposals before the request: added, removed, re-listed (also twice, also with another id
+        // in between), removed again; the request names each label in turn
+        let l = |x: &[&str]| x.iter().map(|s| s.to_string()).collect::<Vec<String>>();
+        let seqs: Vec<Vec<(Vec<String>, Vec<String>)>> = vec![
+            vec![(l(&["U"]), l(&[]))],
+            vec![(l(&["U"]), l(&[])), (l(&[]), l(&["U"]))],
+            vec![(l(&["U"]), l(&[])), (l(&["N", "U"]), l(&[])), (l(&[]), l(&["U"]))],
+            vec![(l(&["U", "U"]), l(&[])), (l(&[]), l(&["U"]))],
+            vec![(l(&["U", "N", "U"]), l(&["U"]))],
+            vec![(l(&["N"]), l(&["B"])), (l(&["B", "U", "B"]), l(&[])), (l(&[]), l(&["B"]))],
+            vec![(l(&["U"]), l(&["U"]))],
+            vec![(l(&[]), l(&["B"]))],
+        ];
+        for ops in seqs {
+            for lab in ["B", "U", "N"] {
+                out.push(Case { kind, code, params: p.clone(), updates: vec![], req: base.clone(), before_genesis: 0, code_ops: ops.clone(), req_code: Some(lab.to_string()) });
+            }
+        }
+    }
     if kind != Kind::Base && updates.is_empty() {
         // the chain clock 1000 s before the genesis mint time: a start in the future of the clock but
         // before / at / after genesis (only a pre-genesis clock can tell the genesis rule from the "not in the past" rule)
         let back = 1000 * S;
         for st in [back as i64 - 1, back as i64, back as i64 + 1, 1] {
             let req = Req { start_in: st, end_in: base.end_in.map(|_| st + 5000 * S as i64), trading_in: None, ..base.clone() };
-            out.push(Case { kind, code, params: p.clone(), updates: vec![], req, before_genesis: back });
+            out.push(Case { kind, code, params: p.clone(), updates: vec![], req, before_genesis: back, code_ops: vec![], req_code: None });
         }
     }
     out
@@ -793,7 +904,7 @@ fn gen_cases(a: &Args) -> Vec<Case> {
         if kind == Kind::Open && rng.chance(1, 3) {
             req.end_in = if rng.chance(1, 2) { None } else { Some(req.start_in + rng.below(3) as i64 - 1) };
         }
-        v.push(Case { kind, code, params: p, updates: vec![], req, before_genesis: 0 });
+        v.push(Case { kind, code, params: p, updates: vec![], req, before_genesis: 0, code_ops: vec![], req_code: None });
     }
     v
 }
